@@ -1,10 +1,17 @@
 import Driver.Common
 import AranyaV.Model.Module
+import AranyaV.Model.ModuleWire
+import AranyaV.Gen.ModuleSchema
 /-! Driver for the `Module` → `Machine` table model (C28).
 
     collect <namehex>*        -> the names of the loaded table, in `AutoMap` iteration order,
                                  each with the index of the module entry it holds: `<hex>:<i> ...`
     get <namehex> / <namehex>*  -> `some <i>` (index of the module entry found under that name) | `none`
+    pcenc <val tokens>        -> `ok <fnv64 of the hex of encode v> <byte length>` | `not-wf`
+                                 (the value must be a well-formed `ModuleV0` at depth 64)
+    pcdec <hex>               -> `ok <fnv64 of the value's token string> <number of tokens>` | `err`
+
+value tokens (prefix form): `u<n>` `i<n>` `b0|b1` `s<hex>` `N` `S v` `q<n> v..` `t<n> v..` `v<idx> v`
 -/
 open AranyaV.Module
 
@@ -13,6 +20,69 @@ def indexed (names : List (List UInt8)) : Table Nat :=
     | [], _ => []
     | n :: r, i => (n, i) :: go r (i + 1)
   go names 0
+
+open AranyaV.ModuleWire in
+/-- parse one value from the token list (fuel = number of tokens) -/
+def pVal : Nat → List String → Option (Val × List String)
+  | 0, _ => none
+  | fuel + 1, toks =>
+    let rec many (fuel : Nat) : Nat → List String → Option (List Val × List String)
+      | 0, ts => some ([], ts)
+      | n + 1, ts =>
+        match fuel with
+        | 0 => none
+        | fuel' + 1 => do
+          let (v, r) ← pVal fuel' ts
+          let (vs, r') ← many fuel' n r
+          pure (v :: vs, r')
+    match toks with
+    | [] => none
+    | t :: rest =>
+      match t.toList with
+      | 'u' :: r => (String.ofList r).toNat?.map fun n => (.u n, rest)
+      | 'i' :: r => (String.ofList r).toInt?.map fun n => (.i n, rest)
+      | ['b', '0'] => some (.b false, rest)
+      | ['b', '1'] => some (.b true, rest)
+      | 's' :: r => (Driver.hex? (String.ofList r)).map fun b => (.str b, rest)
+      | ['N'] => some (.none, rest)
+      | ['S'] => (pVal fuel rest).map fun (v, r) => (.some v, r)
+      | 'q' :: r => do
+        let n ← (String.ofList r).toNat?
+        let (vs, r') ← many fuel n rest
+        pure (.seq vs, r')
+      | 't' :: r => do
+        let n ← (String.ofList r).toNat?
+        let (vs, r') ← many fuel n rest
+        pure (.tup vs, r')
+      | 'v' :: r => do
+        let n ← (String.ofList r).toNat?
+        let (v, r') ← pVal fuel rest
+        pure (.var n v, r')
+      | _ => none
+
+open AranyaV.ModuleWire in
+mutual
+def showV : Val → List String
+  | .u n => [s!"u{n}"]
+  | .i x => [s!"i{x}"]
+  | .b b => [if b then "b1" else "b0"]
+  | .str s => ["s" ++ Driver.toHex s]
+  | .none => ["N"]
+  | .some v => "S" :: showV v
+  | .seq vs => s!"q{vs.length}" :: showVs vs
+  | .tup vs => s!"t{vs.length}" :: showVs vs
+  | .var i v => s!"v{i}" :: showV v
+def showVs : List Val → List String
+  | [] => []
+  | v :: vs => showV v ++ showVs vs
+end
+
+/-- FNV-1a, 64 bit, over the bytes of an ASCII string (same as `vh::fnv`) -/
+def fnv64 (s : String) : UInt64 :=
+  s.foldl (fun h c => (h ^^^ c.toNat.toUInt64) * 0x100000001b3) 0xcbf29ce484222325
+
+/-- nesting depth the driver decodes with (the theorems hold for every depth) -/
+def wireDepth : Nat := 64
 
 def step (s : Unit) (toks : List String) : Unit × String :=
   match toks with
@@ -29,6 +99,23 @@ def step (s : Unit) (toks : List String) : Unit × String :=
         | some i => s!"some {i}"
         | none => "none")
     | _, _ => (s, "bad-op")
+  | "pcenc" :: toks =>
+    match pVal (toks.length + 1) toks with
+    | some (v, []) =>
+      if AranyaV.ModuleWire.wf (AranyaV.Gen.ModuleSchema.sModuleV0 wireDepth) v then
+        let bytes := AranyaV.ModuleWire.enc v
+        (s, s!"ok {fnv64 (Driver.toHex bytes)} {bytes.length}")
+      else (s, "not-wf")
+    | _ => (s, "bad-op")
+  | ["pcdec", h] =>
+    match Driver.hex? h with
+    | none => (s, "bad-op")
+    | some bs =>
+      match AranyaV.ModuleWire.fromBytes (AranyaV.Gen.ModuleSchema.sModuleV0 wireDepth) bs with
+      | .ok v =>
+        let toks := showV v
+        (s, s!"ok {fnv64 (" ".intercalate toks)} {toks.length}")
+      | .error _ => (s, "err")
   | _ => (s, "bad-op")
 
 def main : IO Unit := Driver.run step ()
